@@ -116,6 +116,23 @@ def stream(family, tier):
         for cl in progs:
             yield {"clauses": cl, "queries": [A("e", "X")], "evidence": []}
             yield {"clauses": cl, "queries": [A("e", "X"), A("e", "a")], "evidence": []}
+    elif family == "FTWIN":
+        # a goal on a positive cycle and a later, acyclic goal whose disjunction starts with the same children
+        A, rule, fact = G.A, G.rule, G.fact
+        facts = [fact("0.3", A("x")), fact("0.4", A("y")), fact("0.5", A("z"))]
+        one = lambda h, b: rule(A(h), [[True, A(b)]])
+        shapes = [
+            [one("n", "x"), one("n", "y"), one("n", "m"), one("m", "n"), one("m", "z"), one("k", "x"), one("k", "y")],
+            [one("n", "x"), one("n", "m"), one("m", "n"), one("m", "z"), one("n", "y"), one("k", "x"), one("k", "y")],
+            [one("n", "x"), one("n", "y"), one("n", "n"), one("n", "z"), one("k", "x"), one("k", "y")],
+            [one("k", "x"), one("k", "y"), one("n", "x"), one("n", "y"), one("n", "m"), one("m", "n"), one("m", "z")],
+            [rule(A("n"), [[True, A("x")], [True, A("y")]]), one("n", "m"), one("m", "n"), one("m", "z"),
+             rule(A("k"), [[True, A("x")], [True, A("y")]]), one("k", "z")],
+        ]
+        for cl in shapes:
+            for qs in (["n", "k"], ["k", "n"], ["m", "k"], ["k"]):
+                yield {"clauses": facts + cl, "queries": [A(q) for q in qs], "evidence": []}
+            yield {"clauses": facts + cl, "queries": [A("k")], "evidence": [[A("n"), True, "pair"]]}
     elif family == "FT":
         for cl in G.ft_programs():
             qs = [G.A("s"), G.A("t")]
